@@ -276,6 +276,46 @@ func runErrflow(c *Ctx) {
 		}
 		return ok
 	}
+	// calleeChecks: g is a private step that applies the same discipline to its Result parameter idx — every read of
+	// the outputs and every further hand-on inside it is dominated by its own Err()==nil test on that parameter (or goes
+	// to a callee that is itself faithful or checking).
+	var calleeChecks func(g *ssa.Function, idx int, d int) bool
+	calleeChecks = func(g *ssa.Function, idx int, d int) bool {
+		if g == nil || d > 3 || idx < 0 || idx >= len(g.Params) || len(g.Blocks) == 0 || !p.PrivateHelper(g) {
+			return false
+		}
+		prm := g.Params[idx]
+		if core.NamedOf(prm.Type()) != "Result" {
+			return false
+		}
+		if _, isPtr := prm.Type().(*types.Pointer); isPtr {
+			return false
+		}
+		var spill *ssa.Alloc
+		for _, ref := range *prm.Referrers() {
+			if st, ok := ref.(*ssa.Store); ok && st.Val == ssa.Value(prm) {
+				al, ok := st.Addr.(*ssa.Alloc)
+				if !ok {
+					return false // the Result is stored away
+				}
+				spill = al
+			}
+		}
+		uses := usesOfVal(prm)
+		if spill != nil {
+			uses = append(uses, usesOfLoc(spill)...)
+		}
+		for _, u := range uses {
+			if spill != nil && checkedAt(spill, u.in.Block()) {
+				continue
+			}
+			if u.kind == "handon" && (calleeGuards(u.callee, u.arg, 0) || calleeChecks(u.callee, u.arg, d+1)) {
+				continue
+			}
+			return false
+		}
+		return true
+	}
 	judge := func(f *ssa.Function, origin string, al *ssa.Alloc, uses []resUse) {
 		n := 0
 		for _, u := range uses {
@@ -290,10 +330,10 @@ func runErrflow(c *Ctx) {
 				if u.callee != nil {
 					nm = core.FuncName(u.callee)
 				}
-				inside := !local && calleeGuards(u.callee, u.arg, 0)
+				inside := !local && (calleeGuards(u.callee, u.arg, 0) || calleeChecks(u.callee, u.arg, 0))
 				c.R.Add("ERRFLOW-E1", fmt.Sprintf("%s|result of %s|passed to %s", core.FuncName(f), origin, nm), core.FuncName(f), p.InstrPos(u.in), local || inside,
 					"a Result is handed on (output mapper, adapters, value-set loaders) only where Err()==nil on it dominates, or to a function that faithfully reports the Result's error and changes no state before it is known to be nil",
-					ternary(local, "dominated by Err()==nil", ternary(inside, "the callee is error-faithful (returns the Result's error; no store or execution before it is known to be nil)", "no dominating Err()==nil check, and the callee is not error-faithful for this Result")))
+					ternary(local, "dominated by Err()==nil", ternary(inside, "the callee is error-faithful (returns the Result's error; no store or execution before it is known to be nil) or a private step that tests Err()==nil itself before every use", "no dominating Err()==nil check, and the callee is not error-faithful for this Result")))
 			}
 		}
 	}
